@@ -125,6 +125,17 @@ C29_AllOrNothing(before, after, paths, complete) ==
       LET a == View(after, paths, p) IN
       ~a.present \/ (a.dok /\ a.data = (IF p \in DOMAIN complete THEN complete[p] ELSE View(before, paths, p).data))
 
+\* the lease checker cancels leases (cancel_lease): the share keeps its data and every lease that is not being
+\* cancelled, wherever the process dies; it may disappear only when no other lease was on it
+SeqSet(q) == {q[i] : i \in 1..Len(q)}
+C29_CancelKeepsOthers(before, after, paths, targets, cancelled) ==
+  \A p \in targets :
+    LET a == View(after, paths, p)
+        b == View(before, paths, p)
+        keep == SeqSet(b.leases) \ cancelled
+    IN IF a.present THEN a.dok /\ a.data = b.data /\ a.lok /\ keep \subseteq SeqSet(a.leases)
+       ELSE keep = {}
+
 \* uploads in progress are gone after the restart
 C29_Discard(after, paths) == \A p \in DOMAIN after : paths[p].area = "final"
 =============================================================================
